@@ -127,6 +127,11 @@ func inRepo(f *ssa.Function) bool {
 	if f == nil {
 		return false
 	}
+	// synthetic wrappers (bound method values `c.onClose`, thunks) have no package: they belong
+	// to the package of the method they wrap
+	if f.Pkg == nil && f.Synthetic != "" && f.Object() != nil && f.Object().Pkg() != nil {
+		return strings.HasPrefix(f.Object().Pkg().Path(), modPath)
+	}
 	p := f.Pkg
 	if p == nil && f.Origin() != nil {
 		p = f.Origin().Pkg
